@@ -17,13 +17,13 @@ The property ({pid}: {p['title']}):
 
 Your task: devise ONE realistic change to the library's non-test source code (a plausible maintenance mistake: a moved line, a dropped condition, an off-by-one, a wrong variable, an ordering change between two statements, two cooperating edits that each look fine alone) that BREAKS this property, while
   (a) the repository still compiles (`cd {wt} && GOFLAGS=-mod=mod GOPROXY=off go build ./...` and the same inside any sub-module you touch, e.g. {wt}/pkg/kfake, {wt}/pkg/kmsg, {wt}/pkg/kadm, which have their own go.mod), and
-  (b) the existing test suites of the packages you touched still pass, unedited: run `GOFLAGS=-mod=mod GOPROXY=off go test -count=1 ./pkg/...` style commands in the module(s) you touched (root module: `cd {wt} && GOFLAGS=-mod=mod GOPROXY=off go test -count=1 ./pkg/kgo/... ./pkg/kbin/... ./pkg/kerr/... ./pkg/kversion/...`; sub-modules: cd into them and run `GOFLAGS=-mod=mod GOPROXY=off go test -count=1 ./...`; note pkg/kfake's tests are slow (several minutes) and a number of them are known to be flaky on the unchanged tree — if one fails, re-run it alone on a pristine checkout (`git stash`) to see whether your change is the cause). The machine is heavily shared: be patient with build times, use `-p 4`.
+  (b) the existing test suites of the packages you touched still pass, unedited: run `GOFLAGS=-mod=mod GOPROXY=off go test -count=1 ./pkg/...` style commands in the module(s) you touched (root module: `cd {wt} && GOFLAGS=-mod=mod GOPROXY=off go test -count=1 ./pkg/kgo/... ./pkg/kbin/... ./pkg/kerr/... ./pkg/kversion/...`; sub-modules: cd into them and run `GOFLAGS=-mod=mod GOPROXY=off go test -count=1 ./...`; note pkg/kfake's tests are slow (several minutes) and a number of them are known to be flaky on the unchanged tree — if one fails, re-run it alone with your change reverted (`git apply -R`, never `git stash`) to see whether your change is the cause). The machine is heavily shared: be patient with build times, use `-p 4`.
   (c) the breakage needs something SPECIFIC to manifest — a particular interleaving of goroutines, a crash or fault at a particular point, a particular multi-step sequence of operations, an unusual input value, or a particular configuration — and is NOT something ordinary use would expose at once (a change that breaks every produce or every decode is useless).
 
 Never set GOTOOLCHAIN=local or GOSUMDB=off; the network is unavailable (GOPROXY=off) and everything needed is in the module cache.
 
 Deliverables, all inside {wt}/SEED/ (create it):
   1. patch.diff — `git -C {wt} diff` of the library change only (no test files, nothing under SEED/).
-  2. A demonstration: a Go test file or small program (put it under {wt}/SEED/demo/, with a README line on how to run it from the worktree, e.g. by copying the _test.go file into the package directory) that FAILS with your change applied and PASSES without it (verify both, by `git stash`/`git stash pop` or `git apply -R`). Deterministic if at all possible; if it needs a race/timing, make the window wide with the tools the repo offers (kfake control hooks, synctest, injected sleeps in the DEMO only — never in the library change).
+  2. A demonstration: a Go test file or small program (put it under {wt}/SEED/demo/, with a README line on how to run it from the worktree, e.g. by copying the _test.go file into the package directory) that FAILS with your change applied and PASSES without it (verify both with `git diff > p.diff; git apply -R p.diff; ...; git apply p.diff` — NEVER use `git stash`: the stash is shared between all worktrees of this repository and other agents use them concurrently). Deterministic if at all possible; if it needs a race/timing, make the window wide with the tools the repo offers (kfake control hooks, synctest, injected sleeps in the DEMO only — never in the library change).
   3. meta.json — {{"property": "{pid}", "summary": "<one sentence: what the change does>", "needs": "<what must happen for it to manifest>", "files": [...], "existing_tests_run": "<commands you ran and their result>", "demo": "<how to run it and the observed fail/pass>"}}.
 Leave the worktree with the change APPLIED and SEED/ present (untracked). Do not commit. Your final message: the summary, what it needs to manifest, and the exact commands you ran for (a), (b) and the demonstration with their outcomes.""")
